@@ -166,7 +166,7 @@ def basicAuth (tokens : List Str) (h : Header) : Bool :=
 inductive ClientMsg
   | req (r : Req) (addrOk : Bool)
   | garbage
-deriving Repr, Inhabited
+deriving Repr, Inhabited, DecidableEq
 
 inductive Handled
   | readErr (n407 : Nat)                 -- EOF or malformed request
@@ -174,17 +174,20 @@ inductive Handled
   | connect (n407 : Nat) (r : Req)       -- tunnel
   | bad400 (n407 : Nat)                  -- bad CONNECT target / Host
   | forward (n407 : Nat) (first : Req) (rest : List ClientMsg)
-deriving Repr, Inhabited
+deriving Repr, Inhabited, DecidableEq
+
+/-- `usernameByToken == nil`, or `serverHandleBasicAuth` succeeds -/
+def authOk (auth : Option (List Str)) (h : Header) : Bool :=
+  match auth with
+  | none => true
+  | some toks => basicAuth toks h
 
 /-- `ServerHandle` on the sequence of client messages; `auth = none`: no authentication -/
 def serverHandle (auth : Option (List Str)) : List ClientMsg → Nat → Handled
   | [], n => .readErr n
   | .garbage :: _, n => .readErr n
   | .req r ok :: rest, n =>
-    let authed := match auth with
-      | none => true
-      | some toks => basicAuth toks r.header
-    if !authed then
+    if !authOk auth r.header then
       if r.close then .authClosed (n + 1) else serverHandle auth rest (n + 1)
     else if r.method == connectLit then (if ok then .connect n r else .bad400 n)
     else if ok then .forward n r rest else .bad400 n
@@ -218,9 +221,12 @@ structure St where
   announced : List Req            -- ghost: everything ever put into reqCh
   originIn : List Req             -- trace: requests written to the origin
   originOut : List Resp           -- responses produced by the origin and not yet read
-  rcur : Option Req               -- request the response forwarder pairs responses with
+  taken : List Req                -- ghost: everything ever received from reqCh
+  rcur : Option Req               -- request the response forwarder pairs responses with (final response not yet written)
   rphase : RPhase
-  clientOut : List (Resp × Req)   -- trace: responses written to the client, with the request they were paired with
+  /-- trace: responses written to the client, each with the request it was paired with and the position of
+      that request in the sequence of announcements -/
+  clientOut : List (Resp × Req × Nat)
   respDone : Bool
   chClosed : Bool                 -- reqCh closed (request forwarder returned)
 
@@ -232,16 +238,16 @@ def accepts (fixedHost : Str) (m : ClientMsg) : Option Req :=
 /-- `Proceed()` right after ServerHandle returned `forward _ first rest` -/
 def St.init (first : Req) (rest : List ClientMsg) : St :=
   { fixedHost := first.host, clientIn := rest, sent := [filterReq first], fphase := .announce, queue := [], announced := [],
-    originIn := [], originOut := [], rcur := none, rphase := .peek, clientOut := [], respDone := false, chClosed := false }
+    originIn := [], originOut := [], taken := [], rcur := none, rphase := .peek, clientOut := [], respDone := false, chClosed := false }
 
 inductive Step : St → St → Prop
   /-- `case reqCh <- req` (needs room in the channel) -/
-  | fAnnounce (s : St) (r : Req) : s.fphase = .announce → s.sent.getLast? = some r → s.queue.length < queueCap →
+  | fAnnounce (s : St) (pre : List Req) (r : Req) : s.fphase = .announce → s.sent = pre ++ [r] → s.queue.length < queueCap →
       Step s { s with queue := s.queue ++ [r], announced := s.announced ++ [r], fphase := .write }
   /-- `case <-respDone` -/
   | fSkip (s : St) : s.fphase = .announce → s.respDone = true → Step s { s with fphase := .write }
   /-- `req.Write` + `Flush` succeed -/
-  | fWrite (s : St) (r : Req) : s.fphase = .write → s.sent.getLast? = some r →
+  | fWrite (s : St) (pre : List Req) (r : Req) : s.fphase = .write → s.sent = pre ++ [r] →
       Step s { s with originIn := s.originIn ++ [r], fphase := .read }
   /-- `req.Write` fails (the origin went away, the client stopped in the middle of the body) -/
   | fWriteErr (s : St) : s.fphase = .write → Step s { s with fphase := .done, chClosed := true }
@@ -259,11 +265,12 @@ inductive Step : St → St → Prop
   | rPeekEnd (s : St) : s.rphase = .peek → Step s { s with rphase := .done, respDone := true }
   /-- `req, ok := <-reqCh` -/
   | rTake (s : St) (r : Req) (rest : List Req) : s.rphase = .take → s.queue = r :: rest →
-      Step s { s with queue := rest, rcur := some r, rphase := .read }
+      Step s { s with queue := rest, taken := s.taken ++ [r], rcur := some r, rphase := .read }
   | rTakeClosed (s : St) : s.rphase = .take → s.queue = [] → s.chClosed = true → Step s { s with rphase := .done, respDone := true }
   /-- ReadResponse + filter + Write + Flush, then the close / final tests -/
   | rRead (s : St) (p : Resp) (rest : List Resp) (q : Req) : s.rphase = .read → s.rcur = some q → s.originOut = p :: rest →
-      Step s { s with originOut := rest, clientOut := s.clientOut ++ [((filterResp p q).1, q)],
+      Step s { s with originOut := rest, clientOut := s.clientOut ++ [((filterResp p q).1, q, s.taken.length - 1)],
+                      rcur := if isFinal p.status then none else some q,
                       rphase := if (filterResp p q).2 then .done else if isFinal p.status then .peek else .read,
                       respDone := (filterResp p q).2 }
   /-- ReadResponse / Write fails -/
